@@ -410,7 +410,7 @@ Proof.
     - apply delete_components_covers. assumption.
     - unfold l_kill_res. pose proof (kill_LInv es (s_life w) 0%nat HI) as X.
       destruct (l_kill (s_life w) es 0) as [s' [p|]]; exact X. }
-  destruct o as [k|k|n| |n|built k|k|h|hs|h| | |h|h| |h| |so| | ]; cbn [sstep_core op_regs_ok] in *.
+  destruct o as [k|k|n| |n|built k|k|h|hs|h| | |h|h| |h| |so| |lsid lh lv|lsid ll|lsid lh|prog|qso| ]; cbn [sstep_core op_regs_ok] in *.
   - specialize (Hcr false (hd_choice cs) k Hr). destruct (s_create false w (hd_choice cs)) as [w1 e]. apply Hcr. exact Hok'.
   - specialize (Hcr false (hd_choice cs) k Hr). destruct (s_create false w (hd_choice cs)) as [w1 e]. cbn [fst] in *.
     apply s_builder_drop_ok in Hok'. specialize (Hcr Hok'). destruct Hcr as [A B C D].
@@ -471,6 +471,18 @@ Proof.
     + unfold env_drop_world. split; cbn [se_stores se_table]; [intros sid ms Hf; discriminate | intros sid []].
     + intros sid ms i Hf. unfold env_drop_world in Hf. cbn [se_stores] in Hf. discriminate.
     + intros sid Hf. unfold env_drop_world in Hf. cbn [se_stores] in Hf. exfalso. apply Hf. reflexivity.
+  - destruct (hget (s_hs w) lh); assumption.
+  - destruct (hget_all (s_hs w) (map fst ll)); assumption.
+  - destruct (hget (s_hs w) lh); assumption.
+  - assumption.
+  - (* a storage operation performed by a lazy insert / remove *)
+    assert (op_regs_ok (s_env w) (OStore qso) = true) as Hr' by (destruct qso; exact Hr).
+    destruct (env_sop_pinv (s_life w) (s_env w) (s_hs w) qso HE HL HT Hr') as [A [B C]].
+    unfold env_sop_quiet. destruct (env_sop (s_env w) (l_view (s_life w)) (s_hs w) qso) as [e' out]. cbn [fst] in *.
+    assert (forall c, PInv (s_with_env w (env_cx e' c))) as Hc.
+    { intros c. destruct A as [S1 T1]. split; cbn [s_with_env s_env s_life env_cx se_stores se_table]; auto. split; cbn; auto. }
+    assert (PInv (s_with_env w e')) as He by (split; cbn [s_with_env s_env s_life]; assumption).
+    destruct out as [| | | | | | | |r|o| | | | | | | ]; try exact He; [destruct r|destruct o]; try exact He; apply Hc.
   - assumption.
 Qed.
 
